@@ -543,10 +543,15 @@ func evalCall(cl *pkix.CertificateList, m *model, q *big.Int, mode int, cache ma
 			h["empty-cache:listed→not-revoked(cache trusted)"]++
 		}
 	case got.IsRevoked != want:
-		out = append(out, verdict{fmt.Sprintf("cache=%s: IsRevoked want %v got %v [%s, query %s]", cm, want, got.IsRevoked, class, qc), describe()})
+		cl := class
+		if !want {
+			cl += ", query " + qc
+		}
+		out = append(out, verdict{fmt.Sprintf("cache=%s: IsRevoked want %v got %v [%s]", cm, want, got.IsRevoked, cl), describe()})
 	case !want:
 		if !got.RevocationTime.IsZero() {
-			out = append(out, verdict{fmt.Sprintf("cache=%s: RevocationTime set for an unlisted serial", cm), describe()})
+			// the statement says nothing about the time of a certificate that is not revoked
+			h["info:RevocationTime set although not revoked"]++
 		}
 		h["not-revoked:"+qc]++
 	case mode == 2 && matches > 1:
@@ -733,7 +738,7 @@ func main() {
 				cl, m := buildHand(cf)
 				runCRL(h, cf, cl, m, nil)
 			}
-			if c.WantSample() && li == 37 && tm == 0 && ee == 1 {
+			if c.WantSample() && (li == 5 || li == 37 || li == 150 || li == 400) && tm == 0 && ee == 1 {
 				cf := cfg{Source: "hand", Entries: lists[li], TimeMode: tm, EntExt: ee, Ext: hdrs[len(hdrs)/2].ext, Version: 1, NextSet: true, Query: 2, Cache: 1}
 				c.Sample(mkWitness(cf, "sample case", nil))
 			}
